@@ -56,6 +56,7 @@ type c12World struct {
 	Wvtt    []string `json:"wvtt,omitempty"`
 	CueDur  int      `json:"cuedur"` // 0 = parameter absent (documented default 900 ms)
 	Region  int      `json:"region"` // -1 = parameter absent (documented default 0)
+	Periods int      `json:"periods,omitempty"` // > 0: the MPD is also requested as periods_N; every Period's subtitle sets must mirror its video set
 }
 
 type c12Op struct {
@@ -132,6 +133,17 @@ func (C12) Gen(rng *core.Rng, tier string, idx int) *core.Scenario {
 		cfg.Tsbd = pint(core.Pick(rng, []int{20, 30, 45, 90, 120, 300}))
 	}
 	w.Cfg = cfg
+	if a.ConstSegDur && a.SegDurMS > 0 && rng.Chance(0.3) {
+		var fit []int
+		for _, n := range []int{20, 30, 60, 120, 180, 360} {
+			if d := ref.Segs[0].End - ref.Segs[0].Start; 3600%n == 0 && d > 0 && (uint64(3600/n)*ref.Timescale)%d == 0 {
+				fit = append(fit, n)
+			}
+		}
+		if len(fit) > 0 {
+			w.Periods = core.Pick(rng, fit)
+		}
+	}
 	langSets := [][]string{{"en"}, {"sv"}, {"en", "sv"}, {"sv", "en"}, {"en", "sv", "de"}, {"fi", "no", "da", "en"}}
 	switch rng.Intn(5) {
 	case 0, 1:
@@ -479,7 +491,10 @@ func c12Observe(e *c12Env, op c12Op, region int, checkMPD bool) *c12Obs {
 		panic("harness: no video adaptation set in live MPD of " + w.Asset)
 	}
 	if checkMPD {
-		c12CheckMPD(e, cm, vAS, prefix, now)
+		c12CheckMPD(e, cm.Periods[0].Sets, vAS, prefix, now)
+		if w.Periods > 0 && cfg.StartS == nil {
+			c12CheckMultiPeriodMPD(e, cfg, now)
+		}
 	}
 	if sAS == nil {
 		// reported by c12CheckMPD as as-missing
@@ -781,7 +796,49 @@ func c12Init(e *c12Env, prefix string, ca *ClientAS, now int64, f map[string]str
 // ---------------------------------------------------------------------------------------
 // (5) MPD mirrors the video timeline
 
-func c12CheckMPD(e *c12Env, cm *ClientMPD, vAS *ClientAS, prefix string, now int64) {
+// c12CheckMultiPeriodMPD requests the same configuration split into Periods and checks (5) inside every Period.
+func c12CheckMultiPeriodMPD(e *c12Env, cfg URLCfg, now int64) {
+	res, w := e.res, e.w
+	cfg.Periods = pint(w.Periods)
+	prefix := cfg.Prefix(w.Asset)
+	r := e.srv.GetAt(prefix+"/"+w.MPD, now)
+	res.Count("op.mpd-multiperiod")
+	res.Event("mpd periods_%d t=%d status=%d len=%d", w.Periods, now, r.Status, len(r.Body))
+	f := merge(e.feat, core.Sig("periods", "set"))
+	if r.Panic != "" || r.Status != 200 {
+		res.Violate("C12.mpd-served", merge(f, core.Sig("kind", "multi-period-mpd-not-200", "status", fmt.Sprint(r.Status), "frame", r.PanicFrame)),
+			"MPD %s/%s at %d: status %d panic=%q %q", prefix, w.MPD, now, r.Status, r.Panic, trunc(string(r.Body), 120))
+		return
+	}
+	cm, err := ParseClientMPD(r.Body)
+	if err != nil || len(cm.Periods) == 0 {
+		res.Violate("C12.mpd-served", merge(f, core.Sig("kind", "mpd-unusable")), "multi-period MPD at %d: err=%v", now, err)
+		return
+	}
+	if len(cm.Periods) > 1 {
+		res.Count("probe.multi-period-mpd-checked")
+	}
+	saved := e.feat
+	e.feat = f
+	defer func() { e.feat = saved }()
+	for pi := range cm.Periods {
+		sets := cm.Periods[pi].Sets
+		var vAS *ClientAS
+		for i := range sets {
+			if sets[i].ContentType == "video" {
+				vAS = &sets[i]
+				break
+			}
+		}
+		if vAS == nil {
+			res.Violate("C12.mpd-served", merge(f, core.Sig("kind", "period-without-video")), "%s at %d: Period %s has no video AdaptationSet", prefix, now, cm.Periods[pi].ID)
+			continue
+		}
+		c12CheckMPD(e, sets, vAS, prefix+" Period "+cm.Periods[pi].ID, now)
+	}
+}
+
+func c12CheckMPD(e *c12Env, sets []ClientAS, vAS *ClientAS, prefix string, now int64) {
 	res, w := e.res, e.w
 	res.Count("probe.mpd-checked")
 	type want struct{ f, l string }
@@ -792,7 +849,6 @@ func c12CheckMPD(e *c12Env, cm *ClientMPD, vAS *ClientAS, prefix string, now int
 	for _, l := range w.Wvtt {
 		wants = append(wants, want{"wvtt", l})
 	}
-	sets := cm.Periods[0].Sets
 	nGen := 0
 	for i := range sets {
 		if strings.HasPrefix(sets[i].RepID, "timestpp-") || strings.HasPrefix(sets[i].RepID, "timewvtt-") {
